@@ -160,6 +160,19 @@ def gen_boot(repo):
                     for st in structs)
     s += "]\n"
     n += len(structs)
+    # the struct file itself (bytes) and rig's perl -> Python pack table, for the Lean model of read_struct_file
+    # (Model/C20Parse.lean); Props/C20Parse.lean proves  parseStructFile sarkStructBytes = the table above
+    raw = open(os.path.join(repo, STRUCT), "rb").read()
+    packs = perl_packs(repo)
+    s += "def perlPacks : List (List Nat × List Nat) := %s\n" % lean_list(
+        list(packs.items()), lambda kv: "(%s, %s)" % (list(kv[0].encode("latin-1")), list(kv[1].encode("latin-1"))))
+    # (one literal of this length exceeds Lean's elaboration depth: one definition per 64 bytes, then flatten)
+    chunks = [raw[i:i + 64] for i in range(0, len(raw), 64)]
+    for k, ch in enumerate(chunks):
+        s += "def sarkChunk%d : List Nat := [%s]\n" % (k, ", ".join(str(b) for b in ch))
+    s += "def sarkStructChunks : List (List Nat) := [%s]\n" % ", ".join("sarkChunk%d" % k for k in range(len(chunks)))
+    s += "def sarkStructBytes : List Nat := sarkStructChunks.flatten\n"
+    n += 2
     s += "end Rig.Gen.C20Boot\n"
     return s, n
 
